@@ -777,6 +777,178 @@ def data_job(job):
 
 
 # ---------------------------------------------------------------------------
+# series level: the real match_storms on in-memory series (no SQLite)
+# ---------------------------------------------------------------------------
+
+def series_relation(rain, head, s_thr, jump_delta):
+    """Reference relation for one gap-free stretch given as plain lists."""
+    n = len(rain)
+    heavy = [r > s_thr for r in rain]
+    inc = [head[i + 1] - head[i] > jump_delta for i in range(n - 1)]
+
+    def runs(flags):
+        out, i = [], 0
+        while i < len(flags):
+            if flags[i]:
+                j = i
+                while j < len(flags) and flags[j]:
+                    j += 1
+                out.append((i, j))
+                i = j
+            else:
+                i += 1
+        return out
+
+    s_runs, r_runs = runs(heavy), runs(inc)
+    inst = {"storms": {}, "rises": {}, "edges": set()}
+    classes = set()
+    for a, b in s_runs:
+        for c, e in r_runs:
+            if max(a, c) < min(b, e):
+                inst["storms"][a] = (a, b - a)
+                inst["rises"][c] = (c, e - c)
+                inst["edges"].add((a, c))
+                if b == n:
+                    classes.add("matched_storm_reaches_end_of_stretch")
+    return inst, sorted(classes)
+
+
+def run_series_case(rain, head, s_thr, jump_delta, schedules):
+    import numpy as np  # pylint: disable=import-outside-toplevel
+    mod = classify_module()
+    inst, classes = series_relation(rain, head, s_thr, jump_delta)
+    tie_free = not refmodel.has_ties(inst, 0)
+    stats = collections.Counter()
+    violations, distinct, results = [], [], []
+    base_replay = {"level": "series", "rain": list(rain), "head": list(head), "s_thr": s_thr, "jump_delta": jump_delta}
+    for sch in schedules:
+        ctx = with_schedule(sch)
+        info = None
+        out = None
+        try:
+            try:
+                out = mod.match_storms(np.array(rain, dtype=float), np.array(head, dtype=float), s_thr, jump_delta)
+            except BaseException as exc:  # pylint: disable=broad-except
+                if isinstance(exc, (KeyboardInterrupt, SystemExit)):
+                    raise
+                frames = cli._spowtd_frames(exc.__traceback__)  # pylint: disable=protected-access
+                info = {"exc_type": type(exc).__name__, "exc_msg": str(exc)[:200],
+                        "frame": frames[-1] if frames else "outside"}
+        finally:
+            without_schedule()
+        stats["executions"] += 1
+        stats["series_executions"] += 1
+        stats["pops"] += ctx.pops
+        stats["requeues"] += ctx.requeues
+        if ctx.requeues:
+            distinct.append("s:%s:%s" % (runner.digest([rain, head, s_thr, jump_delta])[:12],
+                                         runner.digest(ctx.schedule.choices)[:8]))
+        found = []
+        sig_extra = None
+        if ctx.livelock:
+            found.append(("C01", "livelock", {"pops": ctx.pops}))
+        elif info is not None:
+            found.append(("C01", "exception:%s@%s" % (info["exc_type"], info["frame"]),
+                          {"exc": info, "input_classes": classes}))
+            sig_extra = {"exception": info["exc_type"], "frame": info["frame"], "input_classes": classes}
+        else:
+            rain_iv, head_iv = out
+            matching = {}
+            seen_s = set()
+            for (a, b), (c, d) in zip(rain_iv, head_iv):
+                a, b, c, d = int(a), int(b), int(c), int(d)
+                if c in matching or a in seen_s:
+                    found.append(("C01", "interval-returned-twice", {"storm": a, "rise": c}))
+                seen_s.add(a)
+                matching[c] = a
+                # storm steps [a, b); rise increments are steps [c, d - 1)
+                if not max(a, c) < min(b, d - 1):
+                    found.append(("C01", "returned-pair-does-not-overlap", {"storm": [a, b], "rise": [c, d]}))
+                ok = (a in inst["storms"] and b == a + inst["storms"][a][1] and c in inst["rises"]
+                      and d == c + inst["rises"][c][1] + 1 and (a, c) in inst["edges"])
+                if not ok and not found:
+                    found.append(("C02", "returned-interval-not-a-maximal-overlapping-run",
+                                  {"storm": [a, b], "rise": [c, d]}))
+            if len(rain_iv) != len(head_iv):
+                found.append(("C01", "result-lists-differ-in-length", {}))
+            if not found:
+                found.extend(judge_matching(inst, matching))
+                if not found:
+                    opt_found, state = judge_optimal(inst, matching)
+                    stats["optimal_" + state] += 1
+                    found.extend(opt_found)
+                results.append((sch, matching))
+        for prop, cls, detail in found:
+            sig = sig_extra if (sig_extra and cls.startswith("exception:")) else {"level": "series", "class": cls}
+            violations.append({"property": prop, "class": cls, "detail": detail, "signature": sig,
+                               "replay": dict(base_replay, property=prop, schedules=[ctx.schedule.as_dict()],
+                                              violation={"class": cls})})
+    if tie_free and len(results) > 1:
+        first = results[0][1]
+        for sch, m in results[1:]:
+            if m != first:
+                violations.append({"property": "C02", "class": "order-dependent",
+                                   "signature": {"level": "series", "class": "order-dependent"},
+                                   "detail": {"a": sorted(first.items()), "b": sorted(m.items())},
+                                   "replay": dict(base_replay, property="C02",
+                                                  schedules=[results[0][0].as_dict(), sch.as_dict()],
+                                                  violation={"class": "order-dependent"})})
+                break
+    stats["series_cases"] += 1
+    if len(inst["edges"]) > len(inst["storms"]) or len(inst["edges"]) > len(inst["rises"]):
+        stats["series_cases_with_contention"] += 1
+    return violations, stats, distinct
+
+
+def gen_series(rng):
+    """One gap-free stretch: heavy-rain and rising-limb run patterns drawn
+    independently (so overlaps chain), values around the thresholds."""
+    s_thr = rng.choice([2.0, 4.0, 8.0])
+    jd = rng.choice([0.5, 1.0, 2.5, 4.0])
+    n = rng.randint(2, 60)
+    lull = rng.choice([(1, 2), (1, 4), (2, 6)])
+    heavy = workload._runs(rng, n, 1, rng.choice([2, 4, 6]), lull[0], lull[1], rng.random() < 0.3)  # pylint: disable=protected-access
+    rising = workload._runs(rng, n, 1, rng.choice([2, 4, 6]), lull[0], lull[1], rng.random() < 0.3)  # pylint: disable=protected-access
+    if rng.random() < 0.9:
+        heavy[-1] = False      # a storm touching the end of the stretch is a separate (known) input class
+    rain = [round(s_thr * rng.uniform(1.01, 3), 3) if h else rng.choice([0.0, round(s_thr * rng.uniform(0, 1), 3), s_thr])
+            for h in heavy]
+    head = [round(rng.uniform(-300, 0), 3)]
+    for i in range(n - 1):
+        d = jd * rng.uniform(1.01, 4) if rising[i] else jd * rng.choice([rng.uniform(-1, 0.99), 1.0])
+        head.append(round(head[-1] + d, 3))
+    return rain, head, s_thr, jd
+
+
+def series_job(job):
+    seed, count, n_sched = job["seed"], job["count"], job["n_sched"]
+    stats = collections.Counter()
+    violations, distinct, samples = [], [], []
+    for i in range(count):
+        s = runner.derive_seed(seed, "series", i)
+        rng = random.Random(s)
+        rain, head, s_thr, jd = gen_series(rng)
+        schedules = [Schedule(POLICIES[k % len(POLICIES)], runner.derive_seed(s, "sched", k)) for k in range(n_sched)]
+        v, st, di = run_series_case(rain, head, s_thr, jd, schedules)
+        stats.update(st)
+        distinct.extend(di)
+        for x in v:
+            x["replay"]["seed"] = s
+        violations.extend(v)
+        if job.get("want_samples") and i < 1:
+            samples.append({"level": "series", "seed": s, "rain": rain, "head": head, "s_thr": s_thr, "jump_delta": jd})
+    kept, seen = [], collections.Counter()
+    for x in violations:
+        key = (x["property"], x["class"])
+        seen[key] += 1
+        if seen[key] <= 2:
+            kept.append(x)
+    for (prop, cls), c in seen.items():
+        stats["met_%s_%s" % (prop, cls)] += c
+    return {"stats": stats, "violations": kept, "distinct": distinct, "samples": samples}
+
+
+# ---------------------------------------------------------------------------
 # replay
 # ---------------------------------------------------------------------------
 
@@ -787,6 +959,9 @@ def replay(rep):
         inst = inst_from_json(rep["instance"])
         edge_order = [tuple(e) for e in rep["edge_order"]]
         v, _st, _di = evaluate_function_case(inst, edge_order, schedules)
+        return v
+    if rep["level"] == "series":
+        v, _st, _di = run_series_case(rep["rain"], rep["head"], rep["s_thr"], rep["jump_delta"], schedules)
         return v
     with runner.RunDir() as directory:
         v, _st, _di, _info = run_data_case(rep["dataset"], rep["thresholds"], schedules, directory)
@@ -831,6 +1006,25 @@ def minimise(violation, budget=150):
                 if got is not None:
                     got["replay"]["seed"] = rep.get("seed")
                     got["replay"]["minimised_from"] = rep.get("minimised_from") or {"edges": len(rep["edge_order"])}
+                    best = got
+                    changed = True
+                    break
+    elif rep["level"] == "series":
+        changed = True
+        while changed and steps < budget:
+            changed = False
+            cur = best["replay"]
+            n = len(cur["rain"])
+            for lo, hi in ((1, n), (0, n - 1), (n // 2, n), (0, n // 2 + 1)):
+                if hi - lo < 2 or (lo, hi) == (0, n) or steps >= budget:
+                    continue
+                cand = json.loads(json.dumps(cur))
+                cand["rain"], cand["head"] = cur["rain"][lo:hi], cur["head"][lo:hi]
+                steps += 1
+                got = still_fails(cand)
+                if got is not None:
+                    got["replay"]["seed"] = rep.get("seed")
+                    got["replay"]["minimised_from"] = rep.get("minimised_from") or {"samples": len(rep["rain"])}
                     best = got
                     changed = True
                     break
@@ -897,7 +1091,8 @@ def minimise(violation, budget=150):
 RULE = (
     "function level: random bipartite candidate graphs (1-6 storms x 1-6 rises; random, interval-overlap, "
     "tie-free and dense edge sets) fed to the real disambiguate_matching, each under several seeded proposer "
-    "schedules (fifo, lifo, random, smallest, largest, starve-one); data level: spowtd load + classify through "
+    "schedules (fifo, lifo, random, smallest, largest, starve-one); series level: the real match_storms on in-memory "
+    "rain / head series with independently drawn heavy-rain and rising-limb run patterns; data level: spowtd load + classify through "
     "user_interface.main on synthetic records built from contention templates and on the two field datasets "
     "at seeded threshold pairs, several schedules each, pairing tables read back through a fresh connection. "
     "A case is non-trivial when the run re-queued at least one storm (rejection or displacement) or made more "
@@ -914,8 +1109,8 @@ ASSUMPTIONS = [
 
 TIERS = {
     # (function jobs, instances per job, schedules) , (synthetic jobs, datasets per job, threshold pairs, schedules), (field threshold pairs, schedules)
-    "quick": {"fn": (48, 250, 6), "syn": (64, 6, 2, 4), "field": (6, 3)},
-    "thorough": {"fn": (640, 1000, 8), "syn": (640, 12, 3, 6), "field": (40, 8)},
+    "quick": {"fn": (48, 250, 6), "series": (48, 150, 4), "syn": (64, 6, 2, 4), "field": (6, 3)},
+    "thorough": {"fn": (640, 1000, 8), "series": (640, 600, 6), "syn": (640, 12, 3, 6), "field": (40, 8)},
 }
 
 
@@ -970,6 +1165,11 @@ def check(prop, tier, only=None):
             for i in range(fn_jobs):
                 jobs.append(("fn", {"seed": runner.derive_seed(seed, prop, "fn", i), "count": fn_count,
                                     "n_sched": fn_sched, "want_samples": i == 0}))
+        if only in (None, "series"):
+            se_jobs, se_count, se_sched = cfg["series"]
+            for i in range(se_jobs):
+                jobs.append(("series", {"seed": runner.derive_seed(seed, prop, "series", i), "count": se_count,
+                                        "n_sched": se_sched, "want_samples": i == 0}))
         if only in (None, "data"):
             for i in range(syn_jobs):
                 jobs.append(("syn", {"seed": runner.derive_seed(seed, prop, "syn", i), "count": syn_count,
@@ -990,7 +1190,7 @@ def check(prop, tier, only=None):
                                            "thresholds": fixed[i] if i < len(fixed) else None,
                                            "want_samples": i < 2}))
         # long jobs first
-        order = {"field": 0, "syn": 1, "fn": 2}
+        order = {"field": 0, "syn": 1, "series": 2, "fn": 3}
         jobs.sort(key=lambda j: order[j[0]])
         for result in runner.run_jobs(_dispatch, jobs):
             report.absorb(result)
@@ -1016,6 +1216,8 @@ def _dispatch(job):
         return function_job(payload)
     if kind == "syn":
         return data_job(payload)
+    if kind == "series":
+        return series_job(payload)
     return field_job(payload)
 
 
